@@ -106,6 +106,10 @@ func runVec(c *ev.Ctx, fcSide bool) {
 			"non-trivial = distinct DAG fingerprint containing an event that sees a fork of one forking validator and not (yet) of another"
 	}
 	c.Assumptions = []string{"reference = transitive closure over parents; fork = equal (creator, seq) with different IDs inside the closure", "events are structurally valid (self-parent first, seq = self-parent seq + 1)"}
+	if fcSide {
+		c.Rule += " Plus dropped batches: fork twins F1, F2 and an event A seeing only F1 are indexed unflushed (F1,F2,A), asked about and dropped, then indexed for good as F2,F1,A; a fresh index gets the final order only; both must agree on ForklessCause(A,b) and (b,A) for every b, A's pairs asked first."
+		c.Parallel(c.Pick(3000, 60000), 0, func(i int) { c05DroppedBatch(c, i) })
+	}
 	nD := c.Pick(1500, 20000)
 	maxEv := c.Pick(70, 150)
 	c.Parallel(nD, 0, func(i int) {
@@ -154,7 +158,60 @@ func runVec(c *ev.Ctx, fcSide bool) {
 			x := newVecIdx(plan, cons.IndexCfg(k))
 			order := cons.Order(r, evs, cons.OrderKind([]cons.OrderKind{cons.OrdRandom, cons.OrdLIFO, cons.OrdCreatorLate, cons.OrdFIFO, cons.OrdGen}[(i+k)%5]))
 			var known []*cons.Ev
+			// C05, third index: the last few events are first indexed WITHOUT flushing, asked about, dropped (as a failed
+			// batch is), and indexed again in another order - fork branches may get other numbers the second time
+			tailFrom := -1
+			if fcSide && k == 2 && len(order) > 6 {
+				tailFrom = len(order) - 2 - r.Intn(4)
+			}
 			for j, e := range order {
+				if j == tailFrom {
+					tail := order[j:]
+					ok := true
+					if p, _ := ev.Try(func() {
+						for _, t := range tail {
+							x.src[t.ID()] = t
+							if err := x.vi.Add(t); err != nil {
+								ok = false
+								return
+							}
+						}
+					}); p != nil || !ok {
+						c.Violation("index-add-failed", map[string]interface{}{"case": i, "after": "unflushed tail", "panic": fmt.Sprint(p), "dag": describeDAG(d)})
+						return
+					}
+					for q := 0; q < 3; q++ {
+						a, b := tail[r.Intn(len(tail))], order[r.Intn(len(order))]
+						ai, _ := ref.Index(a.ID())
+						bi, _ := ref.Index(b.ID())
+						if got := x.vi.ForklessCause(a.ID(), b.ID()); got != ref.FC(ai, bi) {
+							c.Violation("forkless-cause-differs-from-definition", map[string]interface{}{"case": i, "index": k, "pass": "unflushed tail", "a": a.Name, "b": b.Name, "impl": got, "definition": ref.FC(ai, bi), "dag": describeDAG(d)})
+							return
+						}
+					}
+					x.vi.DropNotFlushed()
+					for _, t := range tail {
+						delete(x.src, t.ID())
+					}
+					again := cons.Order(r, tail, cons.OrderKind([]cons.OrderKind{cons.OrdLIFO, cons.OrdRandom, cons.OrdCreatorLate}[i%3]))
+					for _, t := range again {
+						if err := x.add(t); err != nil {
+							c.Violation("index-add-failed", map[string]interface{}{"case": i, "event": t.Name, "after": "re-indexing a dropped tail", "err": err.Error(), "dag": describeDAG(d)})
+							return
+						}
+					}
+					for q := 0; q < 4; q++ {
+						a, b := tail[r.Intn(len(tail))], order[r.Intn(len(order))]
+						ai, _ := ref.Index(a.ID())
+						bi, _ := ref.Index(b.ID())
+						if got := x.vi.ForklessCause(a.ID(), b.ID()); got != ref.FC(ai, bi) {
+							c.Violation("forkless-cause-differs-from-definition", map[string]interface{}{"case": i, "index": k, "pass": "right after re-indexing a dropped tail in another order", "a": a.Name, "b": b.Name, "impl": got, "definition": ref.FC(ai, bi), "dag": describeDAG(d)})
+							return
+						}
+					}
+					c.Count("unflushed_tails_dropped_and_reindexed", 1)
+					break
+				}
 				if k == 1 && r.Intn(3) == 0 {
 					x.addAndDrop(r, plan, known, uint64(j+1))
 					c.Count("dummy_add_then_drop", 1)
@@ -186,17 +243,38 @@ func runVec(c *ev.Ctx, fcSide bool) {
 			}
 			db1 := x.db
 			x.vi.Reset(plan.Validators(), memorydb.New(), x.getEvent)
-			for _, e := range cons.Order(r, evs, cons.OrderKind([]cons.OrderKind{cons.OrdLIFO, cons.OrdRandom, cons.OrdCreatorEarly, cons.OrdFIFO}[i/2%4])) {
+			other := cons.Order(r, evs, cons.OrderKind([]cons.OrderKind{cons.OrdLIFO, cons.OrdRandom, cons.OrdCreatorEarly, cons.OrdFIFO}[i/2%4]))
+			if i/2%3 != 0 {
+				other = other[:r.Intn(len(other)/2+1)] // the second database holds a smaller DAG (fewer events, fewer or no fork branches)
+			}
+			for _, e := range other {
 				if err := x.add(e); err != nil {
 					c.Violation("index-add-failed", map[string]interface{}{"case": i, "event": e.Name, "after": "Reset to a second database", "err": err.Error()})
 					return
 				}
 			}
-			for a := 0; a < N; a++ {
-				x.vi.GetMergedHighestBefore(ref.Ev(a).ID)
+			for _, e := range other {
+				x.vi.GetMergedHighestBefore(e.ID())
 			}
 			x.vi.Reset(plan.Validators(), db1, x.getEvent)
 			c.Count("indexes_reset_to_another_database_and_back", 1)
+		}
+		// C06: an index object that first served a small database of its own (a prefix of the DAG) is Reset to the full
+		// database written by ANOTHER index object, as after a restart: it must answer from what that database holds.
+		if !fcSide && i%2 == 1 && len(idxs) >= 2 {
+			y := newVecIdx(plan, cons.IndexCfg(i%3))
+			for _, e := range evs[:r.Intn(len(evs)/3+1)] {
+				if err := y.add(e); err != nil {
+					c.Violation("index-add-failed", map[string]interface{}{"case": i, "event": e.Name, "after": "small private database", "err": err.Error()})
+					return
+				}
+				y.vi.GetMergedHighestBefore(e.ID())
+			}
+			y.src = idxs[1].src
+			y.db = idxs[1].db
+			y.vi.Reset(plan.Validators(), y.db, y.getEvent)
+			idxs = append(idxs, y)
+			c.Count("indexes_reset_onto_a_database_written_by_another_index", 1)
 		}
 		// a long-lived index: after all queries of the first round it is Reset() to the same validators with
 		// DIFFERENT weights over a fresh DB and the same events (same IDs) are indexed again; answers must be
